@@ -190,6 +190,10 @@ def _receiver_start(text, end):
             j = i
             while j >= 0 and toks[j][0] in ('ws', 'lcomment', 'bcomment'):
                 j -= 1
+            if j >= 1 and toks[j][0] == 'punct' and toks[j][1] == '!' and toks[j - 1][0] == 'ident':
+                # macro invocation `name!(..)` / `name![..]`: the macro name is the callee
+                i = j - 1
+                continue
             if j < 0 or not (toks[j][0] in ('ident', 'num', 'str', 'char') or (toks[j][0] == 'punct' and toks[j][1] in ')]>?')):
                 if open_i >= 0 and toks[open_i][1] in '([':
                     return toks[open_i][2]
@@ -482,3 +486,30 @@ def r15_string_and_to(text):
 
 
 REWRITES['R15'] = r15_string_and_to
+
+def r16_location_postfix(text):
+    """R16: common_lang_types postfix sugar, replaced by the one-line bodies it stands for:
+       X.with_span(S)            -> WithSpan::new(X, S)             (WithSpanPostfix)
+       X.with_generated_span()   -> WithSpan::new(X, Span::todo_generated())
+       X.with_location(L)        -> WithGenericLocation::new(X, L)  (WithLocationPostfix)"""
+    n = 0
+    for name, fmt in (('with_generated_span', 'WithSpan::new(%s, Span::todo_generated())'),
+                      ('with_span', 'WithSpan::new(%s, %s)'),
+                      ('with_location', 'WithGenericLocation::new(%s, %s)')):
+        while True:
+            spans = _call_spans(text, r'\.\s*' + name + r'\b')
+            if not spans:
+                break
+            st, op, cl = spans[0]
+            rs = _receiver_start(text, st)
+            recv = text[rs:st].strip()
+            arg = text[op + 1:cl - 1].strip()
+            if arg.endswith(','):
+                arg = arg[:-1].rstrip()
+            new = (fmt % recv) if name == 'with_generated_span' else (fmt % (recv, arg))
+            text = text[:rs] + new + text[cl:]
+            n += 1
+    return text, n
+
+
+REWRITES['R16'] = r16_location_postfix
